@@ -164,7 +164,12 @@ func (w *World) Dial() (*vnet.StreamConn, error) {
 	return w.H.DialFrom("", fmt.Sprintf("127.0.0.1:%d", w.Cfg.BindPort))
 }
 
-func (w *World) Now() int64 { return vs.Epoch.Add(w.X.Now()).Unix() }
+func (w *World) Now() int64 {
+	if w.X == nil {
+		return 0
+	}
+	return vs.Epoch.Add(w.X.Now()).Unix()
+}
 
 // Login performs the login exchange. On success the peer's reader thread is started.
 func (w *World) Login(name string, o LoginOpt) (*Peer, *msg.LoginResp, error) {
